@@ -173,6 +173,8 @@ def rule_align_impls(u, rep):
                         if body[0][1] != ("self",):
                             rep.add("ALIGN", role + ":recv", "align of %s writes the padding to %s, not to itself" % (role, label(body[0][1])), b.loc())
                         consumed = cnt
+                    elif len(body) == 1 and body[0][0] == "R" and body[0][2] == "B" and body[0][3] == C(1):
+                        consumed = cnt
                     else:
                         okp = False
                         why = "unexpected loop body"
